@@ -23,7 +23,7 @@ DEFAULT_SEED = 1414
 RUNS = {"quick": 2000, "thorough": 120000}
 JOBS = {"quick": 8, "thorough": 16}
 SEARCH_SPACE = "states of the two-party world: particle population per rank x descriptor (types, order) x header sizes x sink table (columns, dialect, empty/missing) x ndim x units (no faults)"
-RULE = ("one run = one world with a particle population and/or a sink file, loaded once (optionally with sortby on a particle key); "
+RULE = ("one run = one world with a particle population and/or a sink file, loaded once (optionally with sortby on a particle key; 20% after an earlier load in the same process); "
         "distinct = hash of the world parameters; non-trivial = particles spread over >= 2 ranks with >= 2 column types, or a sink table with >= 2 rows")
 ASSUMPTIONS = [
     "particle file layout after RAMSES backup_part: ncpu, ndim, npart, five further header records of arbitrary length, then one record per descriptor column",
